@@ -154,4 +154,131 @@ theorem fixOutputs_wf (ir : List Inst) (preOut : List String) (prog : List (NIns
     (by rw [outCanon, outCanonFrom_length]; omega) (by simp [List.length_zip]; omega)
   exact this
 
+/-! ### accepted programs are well-formed -/
+theorem progAdd_ok (p : Array (Nat × Nat)) (i j : Nat) (p' : Array (Nat × Nat)) (out : Nat)
+    (h : progAdd p i j = .ok (p', out)) : out = p.size + 1 ∧ p'.size = p.size + 1 := by
+  unfold progAdd at h
+  split at h
+  · cases h
+  · split at h
+    · cases h
+    · simp only [Except.ok.injEq, Prod.mk.injEq] at h
+      obtain ⟨h1, h2⟩ := h
+      subst h1; subst h2
+      simp
+
+theorem progShift_ok : ∀ (s : Nat) (p : Array (Nat × Nat)) (i : Nat) (p' : Array (Nat × Nat)) (out : Nat),
+    progShift p i s = .ok (p', out) →
+    (s = 0 ∧ out = i ∧ p' = p) ∨ (0 < s ∧ out = p.size + s ∧ p'.size = p.size + s) := by
+  intro s
+  induction s with
+  | zero =>
+    intro p i p' out h
+    simp only [progShift, Except.ok.injEq, Prod.mk.injEq] at h
+    exact Or.inl ⟨rfl, h.2.symm, h.1.symm⟩
+  | succ s ih =>
+    intro p i p' out h
+    simp only [progShift] at h
+    cases ha : progAdd p i i with
+    | error e => rw [ha] at h; cases h
+    | ok r =>
+      obtain ⟨p1, n1⟩ := r
+      rw [ha] at h
+      simp only at h
+      obtain ⟨h1, h2⟩ := progAdd_ok p i i p1 n1 ha
+      right
+      rcases ih p1 n1 p' out h with ⟨hs, ho, hp⟩ | ⟨hs, ho, hp⟩
+      · subst hs; subst hp
+        exact ⟨by omega, by omega, by omega⟩
+      · exact ⟨by omega, by omega, by omega⟩
+
+open AC.PeakLive in
+/-- validation (no dangling input, no repeated output) together with a successful `pass.Compile`
+    (every output index is the position the unrolled program reaches) gives the well-formedness of
+    C05: outputs ≥ 1 and strictly increasing, inputs 0 or earlier outputs -/
+theorem compile_wf : ∀ (ir : List Inst) (p : Array (Nat × Nat)) (S D : List Nat) (last : Nat)
+    (q : Array (Nat × Nat)), (∀ x, x ∈ S ↔ x = 0 ∨ x ∈ D) → last ≤ p.size →
+    danglingFrom S ir = true → uniqueFrom S ir = true → compileFrom p ir = .ok q →
+    wfFrom D last ir = true := by
+  intro ir
+  induction ir with
+  | nil => intro _ _ _ _ _ _ _ _ _ _; rfl
+  | cons a r ih =>
+    intro p S D last q hS hl hd hu hc
+    simp only [danglingFrom, Bool.and_eq_true, List.all_eq_true, List.contains_iff_mem] at hd
+    simp only [uniqueFrom, Bool.and_eq_true, Bool.not_eq_true', List.contains_eq_mem,
+      decide_eq_false_iff_not] at hu
+    obtain ⟨hin, hdr⟩ := hd
+    obtain ⟨hnew, hur⟩ := hu
+    simp only [compileFrom] at hc
+    -- the output index and the new program size
+    have key : ∃ p', a.out = p'.size ∧ p.size < p'.size ∧ compileFrom p' r = .ok q := by
+      cases hop : a.op with
+      | add x y =>
+        rw [hop] at hc
+        simp only at hc
+        cases ha : progAdd p x y with
+        | error e => rw [ha] at hc; cases hc
+        | ok res =>
+          obtain ⟨p', out⟩ := res
+          rw [ha] at hc
+          simp only at hc
+          obtain ⟨h1, h2⟩ := progAdd_ok p x y p' out ha
+          split at hc
+          · cases hc
+          · rename_i hne
+            exact ⟨p', by simp at hne; omega, by omega, hc⟩
+      | dbl x =>
+        rw [hop] at hc
+        simp only at hc
+        cases ha : progAdd p x x with
+        | error e => rw [ha] at hc; cases hc
+        | ok res =>
+          obtain ⟨p', out⟩ := res
+          rw [ha] at hc
+          simp only at hc
+          obtain ⟨h1, h2⟩ := progAdd_ok p x x p' out ha
+          split at hc
+          · cases hc
+          · rename_i hne
+            exact ⟨p', by simp at hne; omega, by omega, hc⟩
+      | shl x s =>
+        rw [hop] at hc
+        simp only at hc
+        cases ha : progShift p x s with
+        | error e => rw [ha] at hc; cases hc
+        | ok res =>
+          obtain ⟨p', out⟩ := res
+          rw [ha] at hc
+          simp only at hc
+          split at hc
+          · cases hc
+          · rename_i hne
+            have hout : out = a.out := by simpa using hne
+            rcases progShift_ok s p x p' out ha with ⟨_, ho, _⟩ | ⟨hs, ho, hp⟩
+            · -- shift by zero: the output is the operand, which is already defined
+              exfalso
+              apply hnew
+              have : x ∈ S := hin x (by simp [hop, Op.inputs])
+              rw [← hout, ho]; exact this
+            · exact ⟨p', by omega, by omega, hc⟩
+    obtain ⟨p', ho, hlt, hc'⟩ := key
+    simp only [wfFrom, Bool.and_eq_true, decide_eq_true_eq, List.all_eq_true, Bool.or_eq_true,
+      beq_iff_eq, List.contains_iff_mem]
+    refine ⟨⟨by omega, ?_⟩, ?_⟩
+    · intro x hx
+      exact (hS x).mp (hin x hx)
+    · apply ih p' (a.out :: S) (a.out :: D) a.out q ?_ (by omega) hdr hur hc'
+      intro x
+      simp only [List.mem_cons, hS x]
+      constructor
+      · rintro (h | h | h)
+        · exact Or.inr (Or.inl h)
+        · exact Or.inl h
+        · exact Or.inr (Or.inr h)
+      · rintro (h | h | h)
+        · exact Or.inr (Or.inl h)
+        · exact Or.inl h
+        · exact Or.inr (Or.inr h)
+
 end AC.GenX
